@@ -219,6 +219,13 @@ impl Repository {
             .context(error::TransportSnafu { url })?;
         file.write_all(&root_file_data)
             .await
+            .with_context(|_| error::CacheFileWriteSnafu {
+                path: outpath.clone(),
+            })?;
+        // `tokio::fs::File` completes a write in the background: without a flush the data may not be
+        // in the file yet when we report success, and a failed write would go unnoticed.
+        file.flush()
+            .await
             .context(error::CacheFileWriteSnafu { path: outpath })
     }
 
